@@ -29,11 +29,20 @@ def relList (g : Graph) : List Path → List Rel
   | p :: ps => rel g p :: relList g ps
 end
 
-/-- paths whose answers the property demands to be duplicate-free: closures, possibly under `^` -/
-def Path.isClosure : Path → Bool
-  | .mul _ _ => true
-  | .inv p => p.isClosure
-  | _ => false
+mutual
+/-- SPARQL 1.1 §18.2.2.3 / §18.4 read off the parser's tree: what a path *written in a query* denotes -/
+def den (g : Graph) : Syn → Rel
+  | .iri p => fun x y => (x, p, y) ∈ g
+  | .altS x xs => unionList (den g x :: denList g xs)
+  | .seqS x xs => compList (den g x) (denList g xs)
+  | .elt x none => den g x
+  | .elt x (some m) => closure m (den g x)
+  | .invS x => fun a b => den g x b a
+  | .nps fw bw => negRel g fw bw
+def denList (g : Graph) : List Syn → List Rel
+  | [] => []
+  | x :: xs => den g x :: denList g xs
+end
 
 /-! ### Statements -/
 
@@ -74,6 +83,14 @@ def Statement_seq_fw_bw_agree : Prop :=
     evaluated to the relation of the expression the user wrote. -/
 def Statement_build_preserves_rel : Prop :=
   ∀ (g : Graph) (p : Path), rel g (build p) = rel g p
+
+/-- SPARQL route: a path written in a query is translated by `translatePath` to an object whose
+    evaluation yields exactly the pairs the query text denotes (for each binding of the ends). -/
+def Statement_sparql_path_same : Prop :=
+  ∀ (g : Graph) (t : Syn) (s o : Option Term) (x y : Term),
+    (x, y) ∈ evalPath g (translate t) s o ↔
+      den g t x y ∧ (∀ a, s = some a → x = a) ∧ (∀ b, o = some b → y = b) ∧
+        (s = none → o = none → x ∈ nodes g ∧ y ∈ nodes g)
 
 /-! ### Proofs (structural induction on the path; the per-generator lemmas are in Lemmas.lean) -/
 
@@ -227,6 +244,48 @@ end
 
 theorem build_preserves_rel : Statement_build_preserves_rel := build_rel_aux
 
+/-! #### translatePath -/
+
+theorem rel_mkAlt (g : Graph) (ps : List Path) : rel g (mkAlt ps) = unionList (relList g ps) := by
+  rw [mkAlt, rel, unionList_flatMap_altArgs]
+
+mutual
+theorem translate_rel (g : Graph) : ∀ s : Syn, rel g (translate s) = den g s
+  | .iri p => by rw [translate, den, rel]
+  | .altS x xs => by
+    have h := translateList_rel g xs
+    rw [translate, den]
+    cases hxs : translateList xs with
+    | nil =>
+      rw [hxs, relList] at h
+      simp only [translate_rel g x, ← h, unionList_singleton]
+    | cons t ts =>
+      simp only
+      rw [rel_mkAlt, relList, ← hxs, h, translate_rel g x]
+  | .seqS x xs => by
+    have h := translateList_rel g xs
+    rw [translate, den]
+    cases hxs : translateList xs with
+    | nil =>
+      rw [hxs, relList] at h
+      simp only [translate_rel g x, ← h, compList]
+    | cons t ts =>
+      simp only
+      rw [rel_mkSeq, ← hxs, h, translate_rel g x]
+  | .elt x none => by rw [translate, den, translate_rel g x]
+  | .elt x (some m) => by rw [translate, den, rel, translate_rel g x]
+  | .invS x => by rw [translate, den, rel, translate_rel g x]
+  | .nps fw bw => by rw [translate, den, rel]
+theorem translateList_rel (g : Graph) : ∀ xs : List Syn, relList g (translateList xs) = denList g xs
+  | [] => by rw [translateList, relList, denList]
+  | x :: xs => by rw [translateList, relList, denList, translate_rel g x, translateList_rel g xs]
+end
+
+theorem sparql_path_same : Statement_sparql_path_same := by
+  intro g t s o x y
+  rw [← translate_rel g t]
+  exact path_correct g (translate t) s o x y
+
 /-- What a user gets: the expression `p` is built by the constructors (`build`) and evaluated. -/
 def Statement_path_correct_as_built : Prop :=
   ∀ (g : Graph) (p : Path) (s o : Option Term) (x y : Term),
@@ -257,6 +316,11 @@ example : evalPath exG (.neg [10] [11]) none (some 4) = [(6, 4), (2, 4)] := by d
 example : mulOk exG (.iri 11) .oneOrMore (some 4) none = true := by decide
 example : build (.seq (.seq (.iri 10) [.iri 11]) [.seq (.iri 10) [.iri 10]]) =
     .seq (.iri 10) [.iri 11, .iri 10, .iri 10] := rfl
+
+-- `(p/^q)*|!(p|^r)` as parsed, and as translated
+example : translate (.altS (.seqS (.elt (.altS (.seqS (.elt (.iri 10) none) [.invS (.elt (.iri 11) none)]) []) (some .zeroOrMore)) [])
+      [.seqS (.elt (.nps [10] [12]) none) []]) =
+    .alt [.mul (.seq (.iri 10) [.inv (.iri 11)]) .zeroOrMore, .neg [10] [12]] := rfl
 
 /-! ### The defects of the pinned code (before the `fix:` commits of branch fix-C11), kept as
     regression witnesses.  Each definition is the pre-fix generator; each theorem shows on a
